@@ -63,8 +63,14 @@ def is_err(x):
     return x is I.REFUSED or isinstance(x, I.Crash)
 
 
+def is_report(r):
+    return (isinstance(r, list) and len(r) == 2 and isinstance(r[0], int) and not isinstance(r[0], bool)
+            and isinstance(r[1], list)
+            and all(isinstance(e, list) and len(e) == 2 and isinstance(e[0], int) and isinstance(e[1], list) for e in r[1]))
+
+
 def canon_reply(r):
-    if isinstance(r, list) and len(r) == 2 and isinstance(r[1], list):
+    if is_report(r):
         return [r[0], [[w, srt(ps)] for w, ps in r[1]]]
     return r
 
@@ -73,6 +79,19 @@ def canon(op, ans):
     """canonical form of an implementation/model answer for the model-vs-implementation comparison"""
     if is_err(ans) or ans is None:
         return ans
+    if op == 80:
+        # per-coroutine results: reports canonicalised, page lists kept in order, network graphs as sets
+        out = []
+        for r in ans:
+            if isinstance(r, list) and len(r) == 2 and isinstance(r[1], list) and \
+                    all(isinstance(e, list) and len(e) == 4 and all(isinstance(x, int) for x in e) for e in r[1]) and \
+                    not is_report(r[1]):
+                out.append([r[0], srt(r[1])])
+            elif isinstance(r, list) and len(r) == 2:
+                out.append([r[0], canon_reply(r[1])])
+            else:
+                out.append(r)
+        return out
     if op in REPORT_OPS:
         return canon_reply(ans)
     if op in (24, 25, 28, 29, 30, 32, 33, 34, 35, 36, 37, 42):
